@@ -326,7 +326,9 @@ def thread_jumps(j, types):
                 m = {}
                 for b in sorted(C | {S}):
                     m[b] = len(blocks)
-                    blocks.append(copy.deepcopy(blocks[b]))
+                    nb = copy.deepcopy(blocks[b])
+                    nb['orig'] = blocks[b].get('orig', b)
+                    blocks.append(nb)
                     added += 1
                 for b in C:
                     _retarget(blocks[m[b]]['term'], m)
